@@ -63,7 +63,17 @@ Local Open Scope N_scope.
 Inductive dval := DNil | DData (k i : N).         (* NIL | a value of kind k, number i *)
 Inductive val := VD (d : dval) | VPtr (p : N).    (* plain data | type Pointer to ScriptPointer p *)
 
-Inductive step := SWait (d : N) | SPause (d : N).
+(* what a helper thread does to the parked thread it was started for *)
+Inductive hact :=
+| AWait (e : N)          (* `t wait e`: re-arms a timed wait / resumes a paused thread after e *)
+| APause                 (* `t pause` *)
+| ADelete.               (* `t delete` *)
+
+Inductive step :=
+| SWait (d : N)                                  (* wait d *)
+| SPause (d : N)                                 (* pause; a helper sends `wait 0` after d *)
+| SPark (w : option N) (hp : list (N * hact)).   (* a helper `wait d1; act1; wait d2; act2; ...` is started,
+                                                    then `wait w` (Some w) or `pause` (None) *)
 Inductive res := RLit (d : dval) | RArg (j : nat) | RLocal.   (* end <literal> | end local.p<j> | end local.r *)
 Inductive fin :=
 | FEnd (r : res) | FEndNone | FFall
@@ -530,7 +540,8 @@ Record tstate := mkTS { tpre : list step; tsubs : list level; tpost : list step;
 
 Inductive thr :=
 | TMain (t : N) (ts : tstate)
-| THelper (target : N) (kill : bool).
+| THelper (target : N) (kill : bool)
+| THelperP (target : N) (hp : list (N * hact)).   (* in `wait d1`, then act1, ... *)
 
 Record waiter := mkW { wdue : N; wseq : N; wthr : thr }.
 
@@ -562,7 +573,7 @@ Definition remove_w (k : N) (l : list waiter) : list waiter :=
   filter (fun x => negb (N.eqb (wseq x) k)) l.
 
 Definition is_main (t : N) (w : waiter) : bool :=
-  match wthr w with TMain t' _ => t' =? t | THelper _ _ => false end.
+  match wthr w with TMain t' _ => t' =? t | _ => false end.
 
 (* what the records / the observation of one host operation look like *)
 Inductive callobs := CNone | CNoLabel | COk (alive : bool) (params : list dval).
@@ -576,14 +587,14 @@ Record obs := mkObs {
   oub : bool }.
 
 Definition w_steps (l : list step) : nat :=
-  fold_right (fun x acc => (match x with SWait _ => 1 | SPause _ => 2 end + acc)%nat) O l.
+  fold_right (fun x acc => (match x with SWait _ => 1 | SPause _ => 2 | SPark _ hp => S (S (2 * length hp)) end + acc)%nat) O l.
 Definition w_fin (f : fin) : nat :=
   match f with FKill _ => 2 | FKillTimed _ => 3 | _ => O end.
 Definition w_level (l : level) : nat := (w_steps (lpre l) + w_steps (lpost l) + w_fin (lfin l))%nat.
 Definition w_ts (ts : tstate) : nat :=
   (w_steps (tpre ts) + fold_right (fun l acc => (w_level l + acc)%nat) O (tsubs ts) + w_steps (tpost ts) + w_fin (tfin ts))%nat.
 Definition w_thr (th : thr) : nat :=
-  match th with TMain _ ts => S (w_ts ts) | THelper _ _ => 2 end.
+  match th with TMain _ ts => S (w_ts ts) | THelper _ _ => 2 | THelperP _ hp => S (2 * length hp) end.
 Definition weight (s : sched) : nat :=
   (fold_right (fun w acc => w_thr (wthr w) + acc) O (pend s) +
    fold_right (fun x acc => w_ts (snd x) + acc) O (paused s))%nat.
@@ -592,8 +603,10 @@ Section Engine.
   Variable H : Type.
   Variable h_init : H.
   Variable h_end : N -> endv -> H -> H.
-  Variable h_kill : N -> H -> H.            (* the thread is deleted while it is parked *)
-  Variable h_killx : N -> H -> H.           (* ... while it executes *)
+  Variable h_kill : N -> H -> H.            (* `t delete`: ~ScriptThread -> NotifyDelete *)
+  Variable h_exec : N -> H -> H.            (* ScriptVM::Execute begins (resume of a parked thread) *)
+  Variable h_suspend : N -> H -> H.         (* ScriptVM::Suspend *)
+  Variable h_tail : N -> H -> H.            (* the tail of ScriptVM::Execute *)
   Variable h_spawn : N -> H -> H * N.
   Variable h_spawned : N -> N -> H -> H.
   Variable h_begin : bool -> H -> H * N.
@@ -604,57 +617,117 @@ Section Engine.
   Variable h_reset : H -> H.
   Variable h_obs : H -> list (N * list tok) * nat * bool.
 
+  (* the helper of an SPark step is started (it runs to its first `wait`) *)
+  Definition start_helper (s : sched) (t : N) (hp : list (N * hact)) : sched :=
+    match hp with
+    | (d, _) :: _ => add_wait s d (THelperP t hp)
+    | [] => s
+    end.
+
+  (* the thread parks itself: Wait / Pause end with m_ScriptVM->Suspend() *)
+  Definition park (s : sched) (h : H) (t : N) (w : option N) (ts : tstate) : sched * H :=
+    (match w with Some d => add_wait s d (TMain t ts) | None => pause s t ts end, h_suspend t h).
+
   (* the thread t runs steps and its final statement (no sub-thread left to start) *)
   Definition run_simple (s : sched) (h : H) (t : N) (steps : list step) (f : fin) : sched * H :=
     match steps with
-    | SWait d :: rest => (add_wait s d (TMain t (mkTS rest [] [] f)), h)
+    | SWait d :: rest => park s h t (Some d) (mkTS rest [] [] f)
     | SPause d :: rest =>
         (* `thread helper local`: the helper runs to its `wait d`; then `pause` *)
-        (pause (add_wait s d (THelper t false)) t (mkTS rest [] [] f), h)
+        park (add_wait s d (THelper t false)) h t None (mkTS rest [] [] f)
+    | SPark w hp :: rest => park (start_helper s t hp) h t w (mkTS rest [] [] f)
     | [] =>
         match f with
         | FEnd (RLit d) => (s, h_end t (EVal d) h)
         | FEnd RLocal => (s, h_end t ELocal h)
         | FEnd (RArg _) => (s, h_end t (EVal DNil) h)      (* not reached: resolved at the start *)
         | FEndNone | FFall => (s, h_end t ENone h)
-        | FKill d => (pause (add_wait s d (THelper t true)) t (mkTS [] [] [] FNever), h)
-        | FKillTimed d => (add_wait (add_wait s d (THelper t true)) 50 (TMain t (mkTS [] [] [] FNever)), h)
-        | FNever => (pause s t (mkTS [] [] [] FNever), h)
-        | FSelfDel | FSyncKill _ | FEndOn => (s, h_killx t h)   (* the threads it starts end at once *)
+        | FKill d => park (add_wait s d (THelper t true)) h t None (mkTS [] [] [] FNever)
+        | FKillTimed d => park (add_wait s d (THelper t true)) h t (Some 50) (mkTS [] [] [] FNever)
+        | FNever => park s h t None (mkTS [] [] [] FNever)
+        | FSelfDel | FSyncKill _ | FEndOn => (s, h_kill t h)   (* the threads it starts end at once *)
         end
     end.
 
   (* run the thread t until it waits, pauses or ends; `local.r = thread sub` runs the sub-thread
-     nested (until it suspends or ends) and then goes on *)
+     nested (until it suspends or ends; then the tail of its Execute) and then goes on *)
   Fixpoint run_st (s : sched) (h : H) (t : N) (pre : list step) (subs : list level)
                   (post : list step) (f : fin) {struct subs} : sched * H :=
     match pre with
-    | SWait d :: rest => (add_wait s d (TMain t (mkTS rest subs post f)), h)
-    | SPause d :: rest => (pause (add_wait s d (THelper t false)) t (mkTS rest subs post f), h)
+    | SWait d :: rest => park s h t (Some d) (mkTS rest subs post f)
+    | SPause d :: rest => park (add_wait s d (THelper t false)) h t None (mkTS rest subs post f)
+    | SPark w hp :: rest => park (start_helper s t hp) h t w (mkTS rest subs post f)
     | [] =>
         match subs with
         | l :: more =>
             let '(h1, c) := h_spawn t h in
             let '(s2, h2) := run_st s h1 c (lpre l) more (lpost l) (resolve [] (lfin l)) in
-            run_simple s2 (h_spawned t c h2) t post f
+            run_simple s2 (h_spawned t c (h_tail c h2)) t post f
         | [] => run_simple s h t post f
         end
     end.
 
+  (* the first thread parked in a timed wait *)
+  Fixpoint find_main (t : N) (l : list waiter) : option tstate :=
+    match l with
+    | [] => None
+    | w :: r => match wthr w with
+                | TMain t' ts => if t' =? t then Some ts else find_main t r
+                | _ => find_main t r
+                end
+    end.
+
+  Definition unpark (s : sched) (t : N) : sched :=
+    mkSched (filter (fun w => negb (is_main t w)) (pend s)) (del t (paused s)) (frame s) (clock s) (sseq s).
+
+  (* where the thread t is parked and what it still runs *)
+  Definition parked_ts (s : sched) (t : N) : option tstate :=
+    match lookup t (paused s) with
+    | Some ts => Some ts
+    | None => find_main t (pend s)
+    end.
+
+  (* a helper's order to the parked thread t *)
+  Definition helper_act (s : sched) (h : H) (t : N) (a : hact) : sched * H :=
+    match a with
+    | AWait e =>
+        (* ScriptThread::Wait: Stop (the old timer entry goes), StartTiming(e), Suspend *)
+        match parked_ts s t with
+        | Some ts => (add_wait (unpark s t) e (TMain t ts), h_suspend t h)
+        | None => (s, h)
+        end
+    | APause =>
+        (* ScriptThread::Pause: Stop, Suspend *)
+        match parked_ts s t with
+        | Some ts => (pause (unpark s t) t ts, h_suspend t h)
+        | None => (s, h)
+        end
+    | ADelete => (unpark s t, h_kill t h)
+    end.
+
   Definition run_thr (s : sched) (h : H) (th : thr) : sched * H :=
     match th with
-    | TMain t ts => run_st s h t (tpre ts) (tsubs ts) (tpost ts) (tfin ts)
+    | TMain t ts =>
+        (* ScriptThread::Resume: m_ScriptVM->Execute() *)
+        let '(s1, h1) := run_st s (h_exec t h) t (tpre ts) (tsubs ts) (tpost ts) (tfin ts) in
+        (s1, h_tail t h1)
     | THelper t false =>
         (* `t wait 0` on the paused thread: StartTiming(0) *)
         match lookup t (paused s) with
         | Some ts =>
-            (add_wait (mkSched (pend s) (del t (paused s)) (frame s) (clock s) (sseq s)) 0 (TMain t ts), h)
+            (add_wait (mkSched (pend s) (del t (paused s)) (frame s) (clock s) (sseq s)) 0 (TMain t ts), h_suspend t h)
         | None => (s, h)
         end
     | THelper t true =>
         (* `t delete` *)
-        (mkSched (filter (fun w => negb (is_main t w)) (pend s)) (del t (paused s)) (frame s) (clock s) (sseq s),
-         h_kill t h)
+        (unpark s t, h_kill t h)
+    | THelperP t hp =>
+        match hp with
+        | (_, a) :: rest =>
+            let '(s1, h1) := helper_act s h t a in
+            (start_helper s1 t rest, h1)
+        | [] => (s, h)
+        end
     end.
 
   Fixpoint resume (fuel : nat) (s : sched) (h : H) : sched * H * bool :=
@@ -685,7 +758,7 @@ Section Engine.
           let params := bind np args in                       (* SetFastData + OP_STORE_PARAM *)
           let l0 := match prog with l :: _ => l | [] => mkLevel [] [] FFall end in
           let '(s1, h2) := run_st s h1 t (lpre l0) (tl prog) (lpost l0) (resolve params (lfin l0)) in
-          let '(s2, h3, ok) := resume (weight s1) s1 h2 in    (* ScriptExecuteInternal: ExecuteRunning *)
+          let '(s2, h3, ok) := resume (weight s1) s1 (h_tail t h2) in   (* ScriptExecuteInternal: ExecuteRunning *)
           let h4 := h_finish true t args h3 in
           ((s2, h4), mk_obs (COk (h_alive t h4) params) s2 h4 ok)
         else
@@ -719,6 +792,53 @@ Section Engine.
   Definition grun (ops : list op) : list obs := run_from (sched_init, h_init) ops.
 End Engine.
 
+(* ---------------------------------------------------------------- the VM state machine *)
+
+(* vmState_e of the live VMs: Running = executing on the native stack; Suspended = Suspend() was
+   called while executing (the interpreter loop ends); Idling = parked, not on the native stack.
+   (Destroy / Destroyed are transient: the VM of a thread that is deleted while it executes is
+   marked and then freed by the tail of its Execute - vm_kill_exec.) *)
+Inductive vmst := VRun | VSusp | VIdle.
+
+Definition mheap := (heap * list (N * vmst))%type.
+
+Definition m_init : mheap := (heap_init, []).
+
+Definition m_end (t : N) (e : endv) (m : mheap) : mheap := (vm_end t e (fst m), del t (snd m)).
+
+(* ~ScriptThread -> ScriptVM::NotifyDelete: an Idling VM is deleted at once; a VM that is Running or
+   Suspended is on the native stack: it is marked and the tail of its Execute deletes it *)
+Definition m_delete (t : N) (m : mheap) : mheap :=
+  match lookup t (snd m) with
+  | Some VIdle => (vm_kill t (fst m), del t (snd m))
+  | Some _ => (vm_kill_exec t (fst m), del t (snd m))
+  | None => m
+  end.
+
+(* ScriptVM::Execute: state = Running *)
+Definition m_exec (t : N) (m : mheap) : mheap :=
+  match lookup t (snd m) with Some _ => (fst m, upd t VRun (snd m)) | None => m end.
+
+(* ScriptVM::Suspend: only a Running VM becomes Suspended *)
+Definition m_suspend (t : N) (m : mheap) : mheap :=
+  match lookup t (snd m) with Some VRun => (fst m, upd t VSusp (snd m)) | _ => m end.
+
+(* the tail of ScriptVM::Execute: Suspended -> Idling *)
+Definition m_tail (t : N) (m : mheap) : mheap :=
+  match lookup t (snd m) with Some VSusp => (fst m, upd t VIdle (snd m)) | _ => m end.
+
+(* the constructor of ScriptVM leaves the state Running *)
+Definition m_spawn (parent : N) (m : mheap) : mheap * N :=
+  let '(h, c) := spawn parent (fst m) in ((h, snd m ++ [(c, VRun)]), c).
+
+Definition m_begin (lbl : bool) (m : mheap) : mheap * N :=
+  let '(h, t) := call_begin lbl (fst m) in ((h, if lbl then snd m ++ [(t, VRun)] else snd m), t).
+
+Definition on_heap (f : heap -> heap) (m : mheap) : mheap := (f (fst m), snd m).
+
 Definition run (ops : list op) : list obs :=
-  grun heap heap_init vm_end vm_kill vm_kill_exec spawn spawned call_begin call_finish thread_alive
-       rec_copy rec_reserve rec_move rec_destroy rec_assign rec_massign heap_reset heap_obs ops.
+  grun mheap m_init m_end m_delete m_exec m_suspend m_tail m_spawn (fun p c => on_heap (spawned p c))
+       m_begin (fun b t a => on_heap (call_finish b t a)) (fun t m => thread_alive t (fst m))
+       (fun r => on_heap (rec_copy r)) (fun r => on_heap (rec_reserve r)) (fun r => on_heap (rec_move r))
+       (fun r => on_heap (rec_destroy r)) (fun a b => on_heap (rec_assign a b)) (fun a b => on_heap (rec_massign a b))
+       (fun m => (heap_reset (fst m), [])) (fun m => heap_obs (fst m)) ops.
